@@ -217,15 +217,15 @@ func ToCommandLine(wf WireFormat, resolveIds bool) (rule string, err error) {
 		} else if len(r.arch) > 0 && r.arch != "b64" {
 			arch = r.arch
 		}
-		syscallTable, ok := auparse.AuditSyscalls[arch]
-		if !ok {
-			return "", fmt.Errorf("no syscall table for arch %s", arch)
-		}
+		// Syscalls without a name (or for an arch without a table) are
+		// listed by number, which is also accepted when adding a rule.
+		syscallTable := auparse.AuditSyscalls[arch]
 		list := make([]string, len(r.syscalls))
 		for idx, syscallID := range r.syscalls {
+			var ok bool
 			list[idx], ok = syscallTable[int(syscallID)]
 			if !ok {
-				return "", fmt.Errorf("syscall %d not found for arch %s", syscallID, arch)
+				list[idx] = strconv.Itoa(int(syscallID))
 			}
 		}
 
